@@ -23,8 +23,8 @@ func init() {
 			"sum(burn) == the integer burn payout the exact distributor model computes for that block from the pre-block books and balances; supply delta == 0 across every DeliverTx (accepted or rejected), governance execution, signature message and EndBlock; custom messages move coins only between fee payer, fee collector, sender, vesting module account and recipient in exactly the expected amounts. " +
 			"Non-trivial: minted>0 in >=3 blocks, burned>0 at least once, >=5 custom transactions delivered of which >=1 failed. Distinct by configuration+history hash.",
 		Assumptions:   []string{"the burn prediction re-synchronises the model with the real pre-block books every block (it predicts one block at a time); exact multi-block distribution is C04's subject"},
-		Cases:         func(t string) int { return tierN(t, 192, 3000) },
-		MinNontrivial: func(t string) int { return tierN(t, 30, 500) },
+		Cases:         func(t string) int { return tierN(t, 320, 3000) },
+		MinNontrivial: func(t string) int { return tierN(t, 50, 500) },
 		Run:           runC01,
 	})
 }
